@@ -4,7 +4,6 @@ CONSTANTS
  MaxItems = 2
  MaxTicket = 12
  MaxStale = 0
- MaxGen = 2
  AllowRemove = FALSE
  Dev = {}
 INVARIANTS TypeOK NoLostWakeup NoStreamLost ReadyHasSignal FairBoundTight
